@@ -457,17 +457,18 @@ func (t *SymbolTable) GetOpt(s Strings) grammar.NonTerminal {
 	t.Lock()
 	defer t.Unlock()
 
+	// The entry for a list of strings is shared by all four kinds; each kind gets its own name on first use.
 	e, ok := t.strings.table.Get(s)
-	if ok {
-		return e.Opt
+	if !ok {
+		e = &stringsEntry{}
+		t.strings.table.Put(s, e)
 	}
 
-	opt := t.mapStringToNoneTerminal(s, "opt")
-	t.strings.table.Put(s, &stringsEntry{
-		Opt: opt,
-	})
+	if e.Opt == "" {
+		e.Opt = t.mapStringToNoneTerminal(s, "opt")
+	}
 
-	return opt
+	return e.Opt
 }
 
 // GetGroup generates a new non-terminal symbol for grouping a list of grammar strings.
@@ -476,17 +477,18 @@ func (t *SymbolTable) GetGroup(s Strings) grammar.NonTerminal {
 	t.Lock()
 	defer t.Unlock()
 
+	// The entry for a list of strings is shared by all four kinds; each kind gets its own name on first use.
 	e, ok := t.strings.table.Get(s)
-	if ok {
-		return e.Group
+	if !ok {
+		e = &stringsEntry{}
+		t.strings.table.Put(s, e)
 	}
 
-	group := t.mapStringToNoneTerminal(s, "group")
-	t.strings.table.Put(s, &stringsEntry{
-		Group: group,
-	})
+	if e.Group == "" {
+		e.Group = t.mapStringToNoneTerminal(s, "group")
+	}
 
-	return group
+	return e.Group
 }
 
 // GetStar generates a new non-terminal symbol for zero or more occurrences of a list of grammar strings.
@@ -495,17 +497,18 @@ func (t *SymbolTable) GetStar(s Strings) grammar.NonTerminal {
 	t.Lock()
 	defer t.Unlock()
 
+	// The entry for a list of strings is shared by all four kinds; each kind gets its own name on first use.
 	e, ok := t.strings.table.Get(s)
-	if ok {
-		return e.Star
+	if !ok {
+		e = &stringsEntry{}
+		t.strings.table.Put(s, e)
 	}
 
-	star := t.mapStringToNoneTerminal(s, "star")
-	t.strings.table.Put(s, &stringsEntry{
-		Star: star,
-	})
+	if e.Star == "" {
+		e.Star = t.mapStringToNoneTerminal(s, "star")
+	}
 
-	return star
+	return e.Star
 }
 
 // GetPlus generates a new non-terminal symbol for one or more occurrences of a list of grammar strings.
@@ -514,17 +517,18 @@ func (t *SymbolTable) GetPlus(s Strings) grammar.NonTerminal {
 	t.Lock()
 	defer t.Unlock()
 
+	// The entry for a list of strings is shared by all four kinds; each kind gets its own name on first use.
 	e, ok := t.strings.table.Get(s)
-	if ok {
-		return e.Plus
+	if !ok {
+		e = &stringsEntry{}
+		t.strings.table.Put(s, e)
 	}
 
-	plus := t.mapStringToNoneTerminal(s, "plus")
-	t.strings.table.Put(s, &stringsEntry{
-		Plus: plus,
-	})
+	if e.Plus == "" {
+		e.Plus = t.mapStringToNoneTerminal(s, "plus")
+	}
 
-	return plus
+	return e.Plus
 }
 
 func (t *SymbolTable) mapStringToNoneTerminal(s Strings, suffix string) grammar.NonTerminal {
